@@ -162,9 +162,6 @@ Section M.
 End M.
 
 (* ---- from the table to the shape of every locked operation ----------------------------- *)
-Definition op_locked (o : op) : bool :=
-  match o with Len | Contains _ => false | _ => true end.
-
 Lemma covered_meth tb c m :
   table_covered tb = true -> In m locked_meths -> meth_covered tb c m = true.
 Proof.
@@ -199,15 +196,15 @@ Qed.
 
 Theorem compile_one_cs tb c :
   table_covered tb = true ->
-  forall o, op_locked o = true -> one_cs (compile_cfg tb c o).
+  forall o, one_cs (compile_cfg tb c o).
 Proof.
-  intros T o L.
+  intros T o.
   assert (CV : forall m, In m locked_meths -> meth_covered tb (cf_kind c) m = true)
     by (intros; apply covered_meth; assumption).
   assert (CM : forall m, In m locked_meths -> m <> MGet -> wraps tb (cf_kind c) m = true)
     by (intros m Hm Hn; apply covered_wraps; [apply CV; assumption|exact Hn]).
   unfold compile_cfg. set (cls := cf_kind c) in *. set (mx := cf_max c). set (om := cf_miss c).
-  destruct o; simpl in L; try discriminate; unfold compile.
+  destruct o; unfold compile.
   - (* SetItem *) unfold m_setitem. apply locked_one_cs; [apply CM; [simpl; auto 20|discriminate]|].
     setitem_body mx.
   - (* GetItem *) unfold m_getitem. apply locked_one_cs; [apply CM; [simpl; auto 20|discriminate]|].
@@ -255,4 +252,6 @@ Proof.
     apply bal_ret.
   - (* Copy *) unfold m_copy. apply locked_one_cs; [apply CM; [simpl; auto 20|discriminate]|].
     unfold anchor_get. apply bal_act. intro r. destruct r; try apply bal_ret. apply bal_walk.
+  - (* Len *) unfold m_len. apply locked_one_cs; [apply CM; [simpl; auto 20|discriminate]|]. bal_tac.
+  - (* Contains *) unfold m_contains. apply locked_one_cs; [apply CM; [simpl; auto 20|discriminate]|]. bal_tac.
 Qed.
